@@ -396,6 +396,45 @@ type runMeta struct {
 	quiet       bool
 }
 
+// finishMutant: self-validation child; prints violated keys, writes nothing.
+func finishMutant(c *Ctx) int {
+	if len(c.fatal) > 0 {
+		for _, f := range c.fatal {
+			fmt.Fprintln(os.Stderr, "ANALYSIS-ERROR:", f)
+		}
+		return 2
+	}
+	known, _ := loadKnown(c.Root)
+	open := map[string]bool{}
+	for _, k := range known {
+		if k.Property == c.Prop && k.Status == "open" {
+			open[k.Key] = true
+		}
+	}
+	exit := 0
+	for _, o := range c.Obls {
+		if o.Status == stViolated && !open[o.Key] {
+			fmt.Printf("MUTANT-VIOLATED %s\n", o.Key)
+			exit = 1
+		}
+		if o.Status == stUndecided {
+			fmt.Printf("MUTANT-UNDECIDED %s\n", o.Key)
+			if exit == 0 {
+				exit = 2
+			}
+		}
+	}
+	for _, r := range c.Rules {
+		if r.Count < r.Floor {
+			fmt.Printf("MUTANT-FLOOR %s\n", r.ID)
+			if exit == 0 {
+				exit = 2
+			}
+		}
+	}
+	return exit
+}
+
 func finish(c *Ctx, m *runMeta) int {
 	if len(c.fatal) > 0 {
 		for _, f := range c.fatal {
